@@ -38,7 +38,15 @@ RULE = ("(a) exhaustive: every value of the first two frame octets x canonical c
         "with verified back-references, stored/fixed/dynamic blocks, inflated text valid / ill-formed / truncated, "
         "fragmented with control frames in between, undecodable DEFLATE); (c) every stream under >=2 (exhaustive part) / "
         ">=4 (other parts) segmentations incl. 1-byte trickle and single cuts for streams <=48 octets (quick: every other "
-        "cut), with a prefix check after every read. "
+        "cut), with a prefix check after every read; read events of SEVERAL chunks (asyncio: k data_received() calls before the "
+        "loop runs, so that the adapter's consumer finds a queue; two-way splits, the piece boundaries of the asciirun corpus, "
+        "bytewise chunks in groups of 1..6, header/mask/payload cuts of the exhaustive sweep); (d) 2..3 connections open at "
+        "the same time - mostly of ONE factory - fed streams that leave receiver state pending at read boundaries (open UTF-8 "
+        "sequence, open fragmented / compressed message, half a control frame, half a header), their reads interleaved "
+        "alternately / randomly / in runs: each connection judged on its own octets after every read and compared with the "
+        "same reads on a connection that is alone; (e) every octet the endpoint writes (pongs, close frames) judged by the "
+        "same reference in the PEER's role, incl. failures whose announced reason text is long (every RFC 1951 decoding "
+        "error class as RSV1 payload, first / second message / continuation). "
         "Non-trivial = the reference assigns at least one event, a close or a failure to the stream; distinct = "
         "(context, stream) hash.")
 ASSUMPTIONS = [
@@ -49,6 +57,9 @@ ASSUMPTIONS = [
     "a close frame whose code AND reason are both unacceptable may be failed with 1002 or 1007",
     "in closing-handshake mode only the FIRST close frame written, absence of later message deliveries and absence of later pongs are asserted",
     "an exception that reaches the framework (out of dataReceived, or out of a loop callback under asyncio) is a violation in every zone, grey or not",
+    "a transport may call data_received() several times before the event loop runs the protocol's callbacks (asyncio.Protocol contract; TLS records, proxy/buffered shims, uvloop) - CPython's plain selector transport makes one call per loop iteration; under Twisted the same chunks are ordinary consecutive reads",
+    "connections of one factory (and of different factories in one process) are independent: a connection's trace must not depend on what other connections receive in between; interleaving happens at read granularity only (single-threaded reactor)",
+    "octets written by the endpoint are judged by vf/c02_judge.py in the peer's role in EVERY zone (grey or not): a pong / close frame the peer has to reject answers / announces nothing; the application never sends in this check, so only pongs and close frames are expected",
     "worlds: vf/world.py fake transports (vf/c02_fast.py builds them from one class per framework, same method bodies, and settles with a constant-time 'nothing runnable' test); asyncio loop is run until idle after every read",
     "during the exhaustive sweep autobahn.websocket.protocol.pformat (used only to render two DEBUG log lines per connection) is replaced by a constant; corpora and generated streams run with the original",
     "NVX UTF-8 validator / XOR masker are rebuilt from the current tree (VERIF_NVX_DIR); the pure-Python fall-backs run in the thorough tier",
@@ -64,6 +75,14 @@ DECIDING = {
     "ascii_after_open_sequence_checked_nvx": 1000, "ascii_after_open_sequence_checked_pure_python": 1000,
     "control_inside_open_sequence_checked": 1000, "valid_close_inside_open_sequence_checked": 500,
     "close_reply_after_failure_checked": 100,
+    # several chunks queued inside one read event (asyncio adapter's receive queue)
+    "aio_burst_reads": 10000, "aio_burst_chunks": 30000,
+    # several connections open at the same time, reads interleaved
+    "interleaved_cases": 500, "interleaved_same_factory_groups": 200, "interleave_switches_inside_message": 2000,
+    "interleave_switches_with_open_utf8_sequence": 100, "interleaved_vs_alone_compared": 500,
+    # what the endpoint writes, judged in the peer's role
+    "reply_frames_judged": 10000, "failure_close_frames_judged": 1000, "failure_close_reason_ge_100_octets_judged": 50,
+    "undecodable_deflate_failure_closes_judged": 50,
 }
 ONLINE_MAX = 4096
 
@@ -209,6 +228,9 @@ def hdr_alt_segs(n, fstart, hend, sel, count):
     cands.append(["cuts", [hend, min(n, hend + 1)]])
     cands.append(["cuts", [fstart, hend, (hend + n) // 2]])
     cands.append(["policy", "small", "s%d" % sel] if n <= 400 else ["policy", "random", "s%d" % sel])
+    # several chunks inside ONE read event (asyncio: queued before the adapter's consumer runs)
+    cands.append(["burst", ["cuts", [fstart + 1, hend, min(n, hend + 1)]], "all"])
+    cands.append(["burst", ["bytewise"], "s%d" % sel] if n <= 220 else ["burst", ["policy", "random", "s%d" % sel], "all"])
     out = []
     for j in range(count):
         out.append(cands[(sel + j * 3) % len(cands)])
@@ -231,6 +253,31 @@ def chunks_of(stream, spec):
     if spec[0] == "policy":
         return segmentations(random.Random(spec[2]), stream, spec[1])
     raise ValueError(spec)
+
+
+def reads_of(stream, spec):
+    """-> list of reads.  ``["burst", base_spec, g]``: the chunks of ``base_spec`` grouped into read events of several
+    chunks each (g == "all": ONE read event; otherwise groups of 1..6 chunks drawn from Random(g)); a group reaches an
+    asyncio protocol as back-to-back data_received() calls before the loop runs (vf.c02_fast.FastAioEndpoint.feed_burst),
+    a Twisted protocol - dataReceived() is synchronous - as ordinary consecutive reads."""
+    if spec[0] != "burst":
+        return chunks_of(stream, spec)
+    chunks = chunks_of(stream, spec[1])
+    if spec[2] == "all":
+        return [chunks] if chunks else []
+    rng = random.Random("burst/%s" % spec[2])
+    out, i = [], 0
+    while i < len(chunks):
+        grp = chunks[i:i + rng.choice((1, 2, 2, 3, 4, 6))]
+        out.append(grp if len(grp) > 1 else grp[0])
+        i += len(grp)
+    return out
+
+
+def spec_name(spec):
+    if spec[0] == "burst":
+        return "burst/" + spec_name(spec[1])
+    return spec[0] if spec[0] != "policy" else spec[1]
 
 
 def account(R, ctx, tl):
@@ -271,9 +318,9 @@ def run_stream(env, R, ctx, stream, specs, replay, label, tl=None):
     for spec in specs:
         R.count("evaluations")
         case = M.Case(env, R, ctx, stream, tl, dict(replay, seg=spec), label)
-        tr = case.run(chunks_of(stream, spec), online=online)
+        tr = case.run(reads_of(stream, spec), online=online)
         any_bad = any_bad or case.bad
-        R.seen("segmentations", spec[0] if spec[0] != "policy" else spec[1])
+        R.seen("segmentations", spec_name(spec))
         if case.bad or tr is None:
             continue
         if first is None:
@@ -679,7 +726,27 @@ def pmce_corpus(ctx):
                 enc(0, b"\xff" * 9, key=pk) + trailer))
     out.append(("pmce/garbage/tail", enc(1, b"\x00\x01", rsv=4, key=pk) + trailer))
     out.append(("pmce/garbage/bfinal", enc(1, b"\x03\x00", rsv=4, key=pk) + frames(1, J.Deflater().message(base)) + trailer))
+    # every way in which an inflater can reject its input (the human readable reason an implementation announces
+    # differs from one to the other, in text and in LENGTH): first message / after a valid compressed message /
+    # in a continuation frame with a ping in between
+    good = J.Deflater().message(base)
+    for bname, broken in BROKEN_DEFLATE(good):
+        out.append(("pmce/garbage/%s/first" % bname, enc(9, b"L", key=pk) + enc(1, broken, rsv=4, key=pk) + trailer))
+        out.append(("pmce/garbage/%s/second" % bname, frames(1, good) + enc(2, broken, rsv=4, key=pk) + trailer))
+        out.append(("pmce/garbage/%s/continuation" % bname, enc(1, b"", fin=False, rsv=4, key=pk) + enc(9, b"P", key=pk) +
+                    enc(0, broken, key=pk) + trailer))
     return out
+
+
+def BROKEN_DEFLATE(good):
+    """[(name, octets)]: near misses of a compressed message - one per error class of RFC 1951 decoding"""
+    return [("reserved-block-type", b"\x06" + good[1:]),
+            ("stored-length-complement", b"\x00\x05\x00\x00\x00hello"),
+            ("code-lengths-set", bytes([0xED, 0xFD, 1, 2, 3, 4, 5, 6, 7, 8, 9])),
+            ("literal-length-code", b"\x1a\x07"),
+            ("distance-too-far-back", b"\x4b\x84\x60\x00"),
+            ("too-many-length-symbols", bytes([0xFD, 0xFF, 0xFF]) + b"\x00" * 6),
+            ("random-octets", bytes((37 * j + 11) & 0xFF for j in range(40)))]
 
 
 ASCII_RUN_SEQS = [b"\xc3\xa9", b"\xe2\x82\xac", b"\xf0\x9f\x98\x80", b"\xed\x9f\xbf", b"\xf4\x8f\xbf\xbf", b"\xe0\xa0\x80"]
@@ -772,18 +839,23 @@ def ctlinside_corpus(ctx):
     return out
 
 
-def gen_segs(stream, seedstr, cut_step=1, cut_phase=0):
+def gen_segs(stream, seedstr, cut_step=1, cut_phase=0, burst=False):
+    """``burst`` (asyncio workers): the two-way splits reach the protocol as ONE read event of two chunks (the chunks
+    are the same, the loop does not run in between - reads with the loop running in between are what the other
+    specs are), plus one variant of the finest segmentation grouped into read events of 1..6 chunks."""
     n = len(stream)
     specs = [["whole"]]
     if n <= 3000:
         specs.append(["bytewise"])
     specs.append(["policy", "random", seedstr + "r"])
-    specs.append(["policy", "halves", seedstr + "h"])
+    specs.append(["burst", ["policy", "halves", seedstr + "h"], "all"] if burst else ["policy", "halves", seedstr + "h"])
     specs.append(["policy", "small" if n <= 3000 else "random", seedstr + "s"])
+    if burst and n >= 2:
+        specs.append(["burst", ["bytewise"] if n <= 400 else ["policy", "small", seedstr + "B"], seedstr + "g"])
     if n <= 48:
         for c in range(1, n):
             if (c + cut_phase) % cut_step == 0:
-                specs.append(["cuts", [c]])
+                specs.append(["burst", ["cuts", [c]], "all"] if (burst and (c + cut_phase) % (3 * cut_step) == 0) else ["cuts", [c]])
     return specs
 
 
@@ -873,10 +945,13 @@ def run_shard(params, R):
     try:
         phases = (("exhaustive", _run_exhaustive, (env, R, tier, seed, part, parts, params["nvx"])),
                   ("corpora", _run_corpora, (env, R, tier, seed, part, parts)),
-                  ("generated", _run_generated, (env, R, tier, seed, part, parts, fw)))
+                  ("generated", _run_generated, (env, R, tier, seed, part, parts, fw)),
+                  ("interleave", _run_interleave, (env, R, tier, seed, part, parts, fw)))
         if params.get("only") == "asciirun":
             phases = (("asciirun", _run_asciirun, (env, R, tier, seed, part, parts)),
                       ("ctlinside", _run_ctlinside, (env, R, tier, seed, part, parts)))
+        elif params.get("only"):        # development aid: one phase only
+            phases = tuple(p for p in phases if p[0] in params["only"].split(","))
         for name, fn, args in phases:
             t0 = time.time()
             e0 = R.counters.get("evaluations", 0)
@@ -947,6 +1022,9 @@ def _run_asciirun(env, R, tier, seed, part, parts):
             if idx % parts != part:
                 continue
             specs = [["whole"], ["bytewise"]] + extra + [["policy", "random", "a%d/%d/%d" % (seed, ci, k)]]
+            if _is_aio(env) and len(extra) > 1:
+                # same chunk boundaries (the pieces), handed over inside ONE read event
+                specs[3] = ["burst", extra[1], "all"]
             tl = run_stream(env, R, ctx, stream, specs, {"kind": "asciirun", "ctx": ctx.to_json(), "idx": k}, label)
             R.count("corpus_cases/asciirun")
             R.count("ascii_after_open_sequence_checked", len(specs))
@@ -965,7 +1043,7 @@ def _run_ctlinside(env, R, tier, seed, part, parts):
             idx += 1
             if idx % parts != part:
                 continue
-            specs = gen_segs(stream, "i%d/%d/%d" % (seed, ci, k), cut_step=2 if tier == "quick" else 1, cut_phase=k + seed)
+            specs = gen_segs(stream, "i%d/%d/%d" % (seed, ci, k), cut_step=2 if tier == "quick" else 1, cut_phase=k + seed, burst=_is_aio(env))
             tl = run_stream(env, R, ctx, stream, specs, {"kind": "ctlinside", "ctx": ctx.to_json(), "idx": k}, label)
             R.count("corpus_cases/ctlinside")
             if "reply-after-failure" in label:
@@ -976,6 +1054,10 @@ def _run_ctlinside(env, R, tier, seed, part, parts):
                     R.count("valid_close_inside_open_sequence_checked", len(specs))
             R.seen("ctlinside_verdicts", "%s|%s" % (label.split("/")[-1], tl.failure.clause if tl.failure else ("valid-close" if tl.close else "delivered")))
             R.sample({"ctx": ctx.name(), "label": label, "stream_hex": stream[:80].hex()}, kind="corpus-ctlinside", every=499)
+
+
+def _is_aio(env):
+    return env.ws.world.fw == "aio"
 
 
 def _validator_module():
@@ -995,7 +1077,7 @@ def _run_corpora(env, R, tier, seed, part, parts):
                     continue
                 if tier == "quick" and name != "pmce" and (k + ci + seed) % 2:
                     continue
-                specs = gen_segs(stream, "c%d/%d/%d" % (seed, ci, k), cut_step=2 if tier == "quick" else 1, cut_phase=k + seed)
+                specs = gen_segs(stream, "c%d/%d/%d" % (seed, ci, k), cut_step=2 if tier == "quick" else 1, cut_phase=k + seed, burst=_is_aio(env))
                 run_stream(env, R, ctx, stream, specs, {"kind": name, "ctx": ctx.to_json(), "idx": k}, label)
                 R.count("corpus_cases/" + name)
                 R.sample({"ctx": ctx.name(), "label": label, "stream_hex": stream[:80].hex()}, kind="corpus-" + name, every=211)
@@ -1016,7 +1098,7 @@ def _run_generated(env, R, tier, seed, part, parts, fw):
         stream, label = gen_stream(rng, ctx, big=(g % 50 == 0))
         if not stream:
             continue
-        run_stream(env, R, ctx, stream, gen_segs(stream, seedstr), {"kind": "gen", "ctx": ctx.to_json(), "seedstr": seedstr,
+        run_stream(env, R, ctx, stream, gen_segs(stream, seedstr, burst=(fw == "aio")), {"kind": "gen", "ctx": ctx.to_json(), "seedstr": seedstr,
                                                                   "big": g % 50 == 0}, label)
         R.count("generated_streams")
         R.seen("mutations", label)
@@ -1024,10 +1106,160 @@ def _run_generated(env, R, tier, seed, part, parts, fw):
 
 
 # --------------------------------------------------------------------------------------------------
+# (d) several connections open at the same time, their reads interleaved
+# --------------------------------------------------------------------------------------------------
+_POOLS = {}
+OUTSIDE_CTX = [c for c in M.ALL_CTX if not c.inside]
+
+
+def _pool(ctx):
+    """(streams that leave receiver state pending at frame boundaries, other streams) for one context"""
+    k = ctx.name()
+    if k not in _POOLS:
+        pending = [(l, s) for (l, s) in utf8_corpus(ctx) if ("/well" in l and "empty" not in l) or "/cut" in l]
+        pending += [(l, s) for (l, s, _x) in asciirun_corpus(ctx) if l.endswith("fragments")]
+        pending += ctlinside_corpus(ctx)
+        other = close_corpus(ctx)[::7]
+        if ctx.pmce:
+            pending += [(l, s) for (l, s) in pmce_corpus(ctx) if "/frag" in l or "straddle" in l or "mixed" in l or "continuation" in l]
+            other += [(l, s) for (l, s) in pmce_corpus(ctx) if "/whole" in l or "garbage" in l]
+        _POOLS[k] = (pending, other)
+    return _POOLS[k]
+
+
+def interleave_case(seedstr):
+    """-> (members, mode): members = [{ctx, stream, label, spec}] for 2..3 connections that are open at the same
+    time - mostly of ONE factory (same role / options), sometimes of different factories in the same process."""
+    rng = random.Random(seedstr)
+    ctx0 = rng.choice(OUTSIDE_CTX)
+    members = []
+    for j in range(rng.choice((2, 2, 2, 3))):
+        ctx = ctx0 if (j == 0 or rng.random() < 0.75) else rng.choice(OUTSIDE_CTX)
+        r = rng.random()
+        pending, other = _pool(ctx)
+        if r < 0.6:
+            label, stream = rng.choice(pending)
+        elif r < 0.75:
+            label, stream = rng.choice(other)
+        else:
+            stream, label = gen_stream(random.Random(seedstr + "/g%d" % j), ctx)
+            stream = stream[:1500]
+            if not stream:
+                label, stream = rng.choice(pending)
+        n = len(stream)
+        tl = J.judge(ctx.role, stream, ctx.pmce)
+        ends = [e for e in tl.frame_ends if 0 < e < n]
+        r = rng.random()
+        if r < 0.35 and ends:
+            spec = ["cuts", ends]                           # one read per frame
+        elif r < 0.6 and n <= 250:
+            spec = ["bytewise"]
+        elif r < 0.8:
+            spec = ["policy", "small" if n <= 600 else "random", seedstr + "/s%d" % j]
+        elif ends:
+            spec = ["cuts", sorted(set(ends + [max(1, e - 1) for e in ends] + [min(n - 1, e + 3) for e in ends]))]
+        else:
+            spec = ["policy", "halves", seedstr + "/h%d" % j]
+        members.append({"ctx": ctx, "stream": stream, "label": label, "spec": spec, "tl": tl})
+    return members, rng.choice(("alternate", "alternate", "random", "runs")), rng
+
+
+def run_interleaved(env, R, seedstr):
+    """Every member connection is judged on its own octets - after every one of its reads and at the end - exactly as
+    when it is alone; additionally its final trace is compared with the trace of the same reads on a connection that
+    was alone (zones the judge leaves open included)."""
+    members, mode, rng = interleave_case(seedstr)
+    replay = {"kind": "interleave", "seedstr": seedstr, "ctx": members[0]["ctx"].to_json()}
+    alone = []
+    for j, m in enumerate(members):
+        account(R, m["ctx"], m["tl"])
+        R.count("evaluations")
+        c = M.Case(env, R, m["ctx"], m["stream"], m["tl"], dict(replay, member=j, alone=True, seg=m["spec"]), m["label"])
+        alone.append(c.run(reads_of(m["stream"], m["spec"]), online=True))
+        if c.bad:
+            return          # reported as an ordinary single-connection violation
+    cases, queues = [], []
+    try:
+        for j, m in enumerate(members):
+            c = M.Case(env, R, m["ctx"], m["stream"], m["tl"], dict(replay, member=j, seg=m["spec"]), "interleaved/" + m["label"])
+            c.tag = "interleaved/"
+            c.begin()
+            cases.append(c)
+            queues.append(reads_of(m["stream"], m["spec"]))
+            R.count("evaluations")
+        pos = [0] * len(cases)
+        prev, run_left, turn = None, 0, 0
+        while True:
+            live = [j for j in range(len(cases)) if pos[j] < len(queues[j])]
+            if not live:
+                break
+            if mode == "alternate":
+                j = live[turn % len(live)]
+                turn += 1
+            elif mode == "random":
+                j = rng.choice(live)
+            else:
+                if run_left <= 0 or prev not in live:
+                    j, run_left = rng.choice(live), rng.randint(1, 4)
+                else:
+                    j = prev
+                run_left -= 1
+            if prev is not None and prev != j and prev in live:
+                a = cases[prev]
+                tl = a.tl
+                if not a.bad and (tl.failure is None or a.k < tl.failure.earliest) and (tl.grey_from is None or a.k < tl.grey_from):
+                    R.count("interleave_switches")
+                    if a.k not in tl.idle:
+                        R.count("interleave_switches_inside_message")
+                    if a.k in tl.open_at:
+                        R.count("interleave_switches_with_open_utf8_sequence")
+            cases[j].feed(queues[j][pos[j]], True)
+            pos[j] += 1
+            prev = j
+        traces = [c.finish() for c in cases]
+    finally:
+        env.done()
+    R.count("interleaved_cases")
+    keys = set(m["ctx"].key() for m in members)
+    R.count("interleaved_same_factory_groups" if len(keys) == 1 else "interleaved_mixed_factory_groups")
+    R.seen("interleave_modes", "%s/%d" % (mode, len(members)))
+    for j, (c, tr) in enumerate(zip(cases, traces)):
+        m = members[j]
+        if c.bad or tr is None or alone[j] is None:
+            continue
+        R.count("interleaved_vs_alone_compared")
+        if tr != alone[j]:
+            tl = m["tl"]
+            clause = tl.failure.clause if tl.failure else ("valid-close" if tl.close else "no-violation")
+            R.violation("C02/%s/interleaved/differs-from-alone/%s" % (m["ctx"].key(), clause),
+                        "a connection produced another trace than the same reads produce on a connection that is alone",
+                        {"ctx": m["ctx"].name(), "label": m["label"], "stream_head_hex": m["stream"][:96].hex(), "seg": m["spec"],
+                         "others": [x["label"] for x in members], "mode": mode,
+                         "trace_alone": _trace_json(alone[j]), "trace_interleaved": _trace_json(tr)}, dict(replay, member=j))
+    R.sample({"mode": mode, "members": [{"ctx": m["ctx"].name(), "label": m["label"], "stream_hex": m["stream"][:48].hex(), "seg": m["spec"][:1]}
+                                        for m in members]}, kind="interleaved", every=29)
+
+
+def _run_interleave(env, R, tier, seed, part, parts, fw):
+    total = 640 if tier == "quick" else 8000        # per framework
+    for g in range(total):
+        if g % parts != part:
+            continue
+        run_interleaved(env, R, "il/%d/%s/%d" % (seed, fw, g))
+
+
+# --------------------------------------------------------------------------------------------------
 def replay(case, R):
     _install_reason_tagging()
     ctx = M.Ctx(*case["ctx"])
     kind = case["kind"]
+    if kind == "interleave":
+        env = M.Env()
+        try:
+            run_interleaved(env, R, case["seedstr"])
+        finally:
+            env.close()
+        return
     if kind == "hdr":
         stream = hdr_stream(ctx, case["b0"], case["b1"], case["vi"])[0]
     elif kind == "gen":
@@ -1062,7 +1294,9 @@ MANIFEST_ENTRY = {
              "a real handshake and fed raw octets; after every read its observable trace (onMessage/onPing/onPong, pongs and "
              "close frames written, transport drop, onClose, escaped exceptions - in observed order) is compared with an "
              "independent RFC 6455/7692 receiver judge, and final traces of the same stream under different segmentations "
-             "are compared with each other. Exhaustive over the first two header octets x canonical length completions x 16 "
+             "are compared with each other (incl. read events of several chunks queued before the asyncio adapter's consumer runs); "
+             "2..3 concurrently open connections with interleaved reads are each judged alone; every octet written is judged in "
+             "the peer's role. Exhaustive over the first two header octets x canonical length completions x 16 "
              "receiver contexts (thorough; 2 complete + 14 sampled per seed in quick), plus grammar-generated sequences with one "
              "mutation, UTF-8, close-payload and permessage-deflate corpora (context take-over, inflated text valid/invalid). "
              "Held = no mismatch on the executions listed in the evidence."),
